@@ -26,6 +26,9 @@ ENC = {
     "objstr": (None, object, lambda k: "abcd"[k]),
     "strzz": ("zz", "<U2", lambda k: "abcd"[k]),
     "strempty": ("", "<U2", lambda k: "abcd"[k]),
+    # labels of different widths, arrays in their natural dtype: the annotators only used the one-character labels, the true
+    # labels also hold the wider ones
+    "strwide": ("?", None, lambda k: ["1", "2", "10", "11"][k]),
 }
 _ready = [False]
 
@@ -175,11 +178,15 @@ def run_case(desc):
     ml, dt, lab = ENC[desc["enc"]]
     n, A, K = int(rng.randint(1, 10)), int(rng.randint(1, 6)), int(rng.randint(2, 5))
     classes = [lab(k) for k in range(K)]
-    Y = np.empty((n, A), dtype=dt)
+    wide = dt is None
+    Y = np.empty((n, A), dtype=object if wide else dt)
     M = rng.rand(n, A) < rng.choice([0.0, 0.3, 0.7])
     for i in range(n):
         for a in range(A):
-            Y[i, a] = ml if M[i, a] else classes[rng.randint(K)]
+            Y[i, a] = ml if M[i, a] else classes[rng.randint(min(K, 2) if wide else K)]
+    if wide:
+        Y = np.array(Y.tolist())
+        dt = None
     W = None
     if desc["wkind"] != "none":
         W = np.round(rng.rand(n, A) * 4) / 2.0
@@ -203,6 +210,8 @@ def run_case(desc):
         U.majority_vote(Ya if not one_d else Ya.reshape(-1, 1), w=None if Wa is None else Wa.reshape(n, -1),
                         classes=cls_arg, missing_label=ml, random_state=int(desc["seed"] % 1000))
         y_true = np.array([classes[rng.randint(K)] for _ in range(n)], dtype=dt)
+        if wide:
+            y_true[rng.randint(n)] = classes[K - 1] if K > 2 else y_true[0]
         U.ext_confusion_matrix(y_true, Ya, classes=cls_arg, missing_label=ml, normalize=desc["normalize"])
         # the caller keeps using its arrays (e.g. the same weight matrix while the label matrix fills up)
         Y0 = Y[:, 0] if one_d else Y
